@@ -182,6 +182,7 @@ class World:
         self.robot_comment_events = bool(config.get('robot_comment_events',
                                                     True))
         self.on_before_push = None   # extra hook used by some properties
+        self.on_job_done = None      # called with every job record
         self.host_answers = None     # recorded (call, args, answer) if list
 
     # ------------------------------------------------------------------
@@ -744,6 +745,8 @@ class World:
             self.restart(wipe=False, count=False)
         self.jobs.append(rec)
         self.clock.advance(1)
+        if self.on_job_done:
+            self.on_job_done(rec)
         return rec
 
     def restart(self, wipe=False, count=True):
